@@ -451,6 +451,67 @@ def _motion(ctx, prog):
 
 
 # ---------------------------------------------------------------- C11.3
+def _sorted_search_crop(ids: T, ts: T):
+    """(start, end, ok, why) if ids = arange(FIRST, LAST + 1) with FIRST /
+    LAST found by np.searchsorted in the (ascending) timestamps; inclusive
+    on both ends iff FIRST = searchsorted(ts, start, 'left') and
+    LAST + 1 = searchsorted(ts, end, 'right')"""
+    from ..lib import linear
+    if ids is None or not is_call_to(ids, "numpy.arange", "builtins.range"):
+        return None
+    a = [x for x in ids.args[1]]
+    if len(a) != 2:
+        return None
+
+    def strip(t: T) -> T:
+        # int(..) wrappers, and min(x, num_poses - 1) around an index that a
+        # sorted search cannot push beyond the end
+        def rw(z: T):
+            if is_call_to(z, "builtins.int") and len(z.args[1]) == 1:
+                return z.args[1][0]
+            if is_call_to(z, "builtins.min", "numpy.minimum") and \
+                    len(z.args[1]) == 2:
+                keep = [q for q in z.args[1]
+                        if any(is_call_to(w, "numpy.searchsorted",
+                                          ".searchsorted")
+                               for w in q.walk())]
+                if len(keep) == 1:
+                    return keep[0]
+            return None
+        return t.map(rw)
+    la, lb = linear(strip(a[0])), linear(strip(a[1]))
+    if la is None or lb is None:
+        return None
+
+    def single(lf):
+        ks = [k for k in lf if k != 1]
+        if len(ks) == 1 and lf[ks[0]] == 1 and is_call_to(
+                ks[0], "numpy.searchsorted", ".searchsorted"):
+            return ks[0], lf.get(1, 0)
+        return None
+    sa_, sb_ = single(la), single(lb)
+    if sa_ is None or sb_ is None:
+        return None
+
+    def parts(c: T):
+        args = list(c.args[1])
+        if tm.callee_name(c) == ".searchsorted":
+            args = [tm.method_recv(c)] + args
+        kw = dict(c.args[2])
+        side = kw.get("side", args[2] if len(args) > 2 else None)
+        side = tm.const_val(side) if side is not None and \
+            tm.is_const(side) else ("left" if side is None else "?")
+        return args[0], args[1], side
+    (ta, va, sa2), (tb, vb, sb2) = parts(sa_[0]), parts(sb_[0])
+    if ta is not ts or tb is not ts:
+        return None
+    ok = sa2 == "left" and sa_[1] == 0 and sb2 == "right" and sb_[1] == 0
+    why = (f"first index = searchsorted(t, start, {sa2!r}){sa_[1]:+d}, "
+           f"end of range = searchsorted(t, end, {sb2!r}){sb_[1]:+d} "
+           f"(inclusive needs 'left'+0 and 'right'+0)")
+    return va, vb, ok, why
+
+
 def _crop(ctx, prog):
     f = prog.func(f"{TRAJ}.reduce_to_time_range")
     ctx.analysed_fn(f.qualname)
@@ -459,12 +520,48 @@ def _crop(ctx, prog):
     sp, ep = tm.param("start_timestamp"), tm.param("end_timestamp")
     start = tm.ite(T("cmp", "Is", sp, tm.NONE), tm.sub(ts, const(0)), sp)
     end = tm.ite(T("cmp", "Is", ep, tm.NONE), tm.sub(ts, const(-1)), ep)
-    red = [e for e in r.of_kind("call")
+    red = [e for e in r.of_kind("call", all_depths=True)
            if (e.data.get("name") or "").endswith("reduce_to_ids")]
+
+    def empty_sel(e):
+        v = (e.data["bound"] or {}).get("ids")
+        return v is not None and is_call_to(v, "numpy.array", "numpy.empty",
+                                            "numpy.zeros") and v.args[1] and (
+            (v.args[1][0].op == "list" and not v.args[1][0].args) or
+            tm.is_const(v.args[1][0], 0))
+    red = [e for e in red if not empty_sel(e)] or red
+    # (a nested reduce_to_ids of a delegating helper is the same reduction)
+    if len(red) > 1:
+        red = [e for e in red if e.depth == max(x.depth for x in red)]
     ctx.require(len(red) == 1, "reduce_to_time_range: reduce_to_ids call "
                 "not found")
     ids = (red[0].data["bound"] or {}).get("ids")
     ok, lo, hi = False, None, None
+    ss = _sorted_search_crop(ids, ts)
+    if ss is not None:
+        lo, hi, oks, why = ss
+        ctx.ob("C11.3", red[0], oks,
+               "time crop keeps exactly start <= t <= end: index range "
+               "[searchsorted(t, start), searchsorted(t, end, 'right')) of "
+               "the ascending timestamps" if oks else
+               f"time crop by sorted search is not inclusive on both ends: "
+               f"{why}", key="C11.3:mask", ids=fmt(ids))
+        ok2 = lo is start and hi is end
+        ctx.ob("C11.3", red[0], ok2,
+               "time crop: None bounds default to the first / last timestamp"
+               if ok2 else
+               f"time crop bounds are {fmt(lo)} / {fmt(hi)}",
+               key="C11.3:defaults")
+        raises = [e for e in r.of_kind("raise")
+                  if (end, "Lt", start) in _cmp_set(e.live)]
+        ok = bool(raises) and raises[0].idx < red[0].idx
+        ctx.ob("C11.3", f, ok,
+               "time crop: start > end raises before the reduction" if ok
+               else "time crop: start > end is not refused",
+               key="C11.3:refuse")
+        ctx.ob("C11.3", red[0], True, "time crop goes through "
+               "reduce_to_ids", key="C11.3:via-reduce", nontrivial=False)
+        return
     if ids is not None and ids.op == "sub" and tm.is_const(ids.args[1], 0) \
             and is_call_to(ids.args[0], "numpy.where", "numpy.nonzero") and \
             len(ids.args[0].args[1]) == 1:
